@@ -41,26 +41,26 @@ theorem delimLength_cases (s : Str) (unq tri : Bool) (limit : Nat) :
   cases Model.chooseDelim s unq tri limit (Model.counters s) <;> simp [Model.Delim.units]
 
 theorem writeChar_invalid (c : Ctx) (s : Str) (quoted allowText : Bool) (h : c.isCif1 = true ∧ validate11 s = false) :
-    writeChar c s quoted allowText = .error Gen.ErrCodes.CIF_DISALLOWED_CHAR := by
-  unfold writeChar; simp [h]
+    writeCharCore c s quoted allowText = .error Gen.ErrCodes.CIF_DISALLOWED_CHAR := by
+  unfold writeCharCore; simp [h]
 
 theorem writeChar_delim0 (c : Ctx) (s : Str) (quoted allowText : Bool) (hv : ¬(c.isCif1 = true ∧ validate11 s = false))
     (hd : (analyze s (!quoted) (!c.isCif1) LINE).delimLength = 0) :
-    writeChar c s quoted allowText = writeUnquoted c s (analyze s (!quoted) (!c.isCif1) LINE).lengthMax := by
-  unfold writeChar; simp only [hv, ↓reduceIte, hd]
+    writeCharCore c s quoted allowText = writeUnquoted c s (analyze s (!quoted) (!c.isCif1) LINE).lengthMax := by
+  unfold writeCharCore; simp only [hv, ↓reduceIte, hd]
 
 theorem writeChar_delim1 (c : Ctx) (s : Str) (quoted allowText : Bool) (hv : ¬(c.isCif1 = true ∧ validate11 s = false))
     (hd : (analyze s (!quoted) (!c.isCif1) LINE).delimLength = 1) :
-    writeChar c s quoted allowText
+    writeCharCore c s quoted allowText
       = writeQuoted c s (analyze s (!quoted) (!c.isCif1) LINE).length ((analyze s (!quoted) (!c.isCif1) LINE).delim.headD 0) := by
-  unfold writeChar; simp [hv, hd]
+  unfold writeCharCore; simp [hv, hd]
 
 theorem writeChar_delim3 (c : Ctx) (s : Str) (quoted allowText : Bool) (hv : ¬(c.isCif1 = true ∧ validate11 s = false))
     (hd : (analyze s (!quoted) (!c.isCif1) LINE).delimLength = 3) :
-    writeChar c s quoted allowText
+    writeCharCore c s quoted allowText
       = writeTripleQuoted c s (analyze s (!quoted) (!c.isCif1) LINE).lengthFirst (analyze s (!quoted) (!c.isCif1) LINE).lengthLast
           ((analyze s (!quoted) (!c.isCif1) LINE).delim.headD 0) := by
-  unfold writeChar; simp [hv, hd]
+  unfold writeCharCore; simp [hv, hd]
 
 theorem analyze_delim (s : Str) (unq tri : Bool) (limit : Nat) :
     (analyze s unq tri limit).delim = (Model.recommend s unq tri limit).units
@@ -69,14 +69,94 @@ theorem analyze_delim (s : Str) (unq tri : Bool) (limit : Nat) :
 theorem writeChar_delim2_refused (c : Ctx) (s : Str) (quoted allowText : Bool) (hv : ¬(c.isCif1 = true ∧ validate11 s = false))
     (hd : (analyze s (!quoted) (!c.isCif1) LINE).delimLength = 2)
     (hr : allowText = false ∨ ((analyze s (!quoted) (!c.isCif1) LINE).containsTextDelim = true ∧ c.isCif1 = true)) :
-    writeChar c s quoted allowText = .error Gen.ErrCodes.CIF_DISALLOWED_VALUE := by
-  unfold writeChar; simp [hv, hd, hr]
+    writeCharCore c s quoted allowText = .error Gen.ErrCodes.CIF_DISALLOWED_VALUE := by
+  unfold writeCharCore; simp [hv, hd, hr]
 
 theorem writeChar_delim2 (c : Ctx) (s : Str) (quoted allowText : Bool) (hv : ¬(c.isCif1 = true ∧ validate11 s = false))
     (hd : (analyze s (!quoted) (!c.isCif1) LINE).delimLength = 2)
     (hr : ¬(allowText = false ∨ ((analyze s (!quoted) (!c.isCif1) LINE).containsTextDelim = true ∧ c.isCif1 = true))) :
-    writeChar c s quoted allowText
+    writeCharCore c s quoted allowText
       = writeText c s (charFlags (analyze s (!quoted) (!c.isCif1) LINE)).1 (charFlags (analyze s (!quoted) (!c.isCif1) LINE)).2 := by
-  unfold writeChar charFlags; simp [hv, hd, hr]
+  unfold writeCharCore charFlags; simp [hv, hd, hr]
+
+/-! ### the two opening tests of `write_char` -/
+
+/-- a text `write_char` does not refuse at once: no CR, and — in CIF 2.0 mode — no character CIF 2.0 does not allow -/
+def strClean (cif1 : Bool) (s : Str) : Bool := !(s.contains 13) && (cif1 || !Model.hasDisallowed s)
+
+theorem writeChar_cr (c : Ctx) (s : Str) (quoted allowText : Bool) (h : (13 : CU) ∈ s) :
+    writeChar c s quoted allowText = .error Gen.ErrCodes.CIF_DISALLOWED_VALUE := by
+  unfold writeChar; simp [h]
+
+theorem writeChar_disallowed (c : Ctx) (s : Str) (quoted allowText : Bool) (h13 : (13 : CU) ∉ s) (h2 : c.isCif1 = false)
+    (h : Model.hasDisallowed s = true) : writeChar c s quoted allowText = .error Gen.ErrCodes.CIF_DISALLOWED_CHAR := by
+  unfold writeChar; simp [h13, h2, h]
+
+theorem writeChar_clean (c : Ctx) (s : Str) (quoted allowText : Bool) (h : strClean c.isCif1 s = true) :
+    writeChar c s quoted allowText = writeCharCore c s quoted allowText := by
+  unfold strClean at h
+  simp only [Bool.and_eq_true, Bool.not_eq_true', Bool.or_eq_true] at h
+  have h13 : (13 : CU) ∉ s := by
+    intro hm
+    have : s.contains 13 = true := by simpa using hm
+    rw [h.1] at this; cases this
+  unfold writeChar
+  rw [if_neg h13]
+  cases hc : c.isCif1 with
+  | true => simp
+  | false =>
+    rw [hc] at h
+    have : Model.hasDisallowed s = false := by simpa using h.2
+    simp [this]
+
+theorem strClean_of (cif1 : Bool) (s : Str) (h13 : (13 : CU) ∉ s) (hd : cif1 = false → Model.hasDisallowed s = false) :
+    strClean cif1 s = true := by
+  unfold strClean
+  have : s.contains 13 = false := by simpa using h13
+  rw [this]
+  cases cif1 with
+  | true => simp
+  | false => simp [hd rfl]
+
+theorem strClean_noCR (cif1 : Bool) (s : Str) (h : strClean cif1 s = true) : (13 : CU) ∉ s := by
+  unfold strClean at h
+  simp only [Bool.and_eq_true, Bool.not_eq_true'] at h
+  intro hm
+  have : s.contains 13 = true := by simpa using hm
+  rw [h.1] at this; cases this
+
+theorem strClean_allowed (s : Str) (h : strClean false s = true) : Model.hasDisallowed s = false := by
+  unfold strClean at h
+  simp only [Bool.and_eq_true, Bool.not_eq_true', Bool.false_or] at h
+  exact h.2
+
+/-- `write_char` refuses at once, or is its core -/
+theorem writeChar_cases (c : Ctx) (s : Str) (quoted allowText : Bool) :
+    (writeChar c s quoted allowText = .error Gen.ErrCodes.CIF_DISALLOWED_VALUE ∧ (13 : CU) ∈ s)
+    ∨ (writeChar c s quoted allowText = .error Gen.ErrCodes.CIF_DISALLOWED_CHAR ∧ (13 : CU) ∉ s ∧ c.isCif1 = false ∧ Model.hasDisallowed s = true)
+    ∨ (writeChar c s quoted allowText = writeCharCore c s quoted allowText ∧ strClean c.isCif1 s = true) := by
+  by_cases h13 : (13 : CU) ∈ s
+  · exact Or.inl ⟨writeChar_cr c s quoted allowText h13, h13⟩
+  · by_cases hd : c.isCif1 = false ∧ Model.hasDisallowed s = true
+    · exact Or.inr (Or.inl ⟨writeChar_disallowed c s quoted allowText h13 hd.1 hd.2, h13, hd.1, hd.2⟩)
+    · have hcl : strClean c.isCif1 s = true := by
+        unfold strClean
+        have : s.contains 13 = false := by simpa using h13
+        rw [this]
+        cases hc : c.isCif1 with
+        | true => simp
+        | false =>
+          cases hh : Model.hasDisallowed s with
+          | false => simp
+          | true => exact absurd ⟨hc, hh⟩ hd
+      exact Or.inr (Or.inr ⟨writeChar_clean c s quoted allowText hcl, hcl⟩)
+
+/-- a successful `write_char` was given a clean text, and did what its core does -/
+theorem writeChar_ok (c : Ctx) (s : Str) (quoted allowText : Bool) (r : Str × Ctx) (h : writeChar c s quoted allowText = .ok r) :
+    strClean c.isCif1 s = true ∧ writeCharCore c s quoted allowText = .ok r := by
+  rcases writeChar_cases c s quoted allowText with ⟨e, _⟩ | ⟨e, _⟩ | ⟨e, hcl⟩
+  · rw [e] at h; cases h
+  · rw [e] at h; cases h
+  · exact ⟨hcl, by rw [← e]; exact h⟩
 
 end CifModel.Lemmas.WriterChar
